@@ -79,6 +79,7 @@ class Interp:
         self.classes_in_order = []
         self.reads = []  # (name, selected (kind, site) | None, candidates, in_fill)
         self.elem_roots = {}  # uid -> [instance numbers]
+        self.elem_occ = []  # (uid, [instance numbers]) per rendered element, document order
         self.provider_count = 0
         self.events = {"slot_filled": 0, "slot_default": 0, "slot_in_default": 0, "slot_in_fill": 0, "fill_in_loop": 0, "dynamic_name": 0, "inject_hit": 0, "inject_default": 0, "max_depth": 0}
 
@@ -112,6 +113,7 @@ class Interp:
             elif k == "elem":
                 for i in top:
                     self.instances[i].roots.append(n[1])
+                self.elem_occ.append((n[1], sorted(top)))
                 self.elem_roots.setdefault(n[1], [])
                 self.elem_roots[n[1]] = sorted(set(self.elem_roots[n[1]]) | set(top))
                 out.append(f"<e{n[1]}>")
